@@ -115,9 +115,17 @@ structure LRec where
 inductive IFail
   | parse (f : PFail) (file : Str) (upper : List (Str × Nat))
   | notFound (file : Str) (upper : List (Str × Nat))             -- located at `file:0`
+  | unreadable (file : Str) (upper : List (Str × Nat))           -- exists but cannot be read as text
+                                                                 -- (a directory): `ReadFile`, at `file:0`
   | emptyInclude (file : Str) (line : Nat) (upper : List (Str × Nat))
   | outOfFuel
   deriving DecidableEq, Repr
+
+/-- the path holds no text file: it does not exist (`FileNotFound`), or it exists but reading it
+    fails — in the model: it is a directory (`ReadFile`; a file that is not valid UTF-8 fails the same
+    way but has no representation in `Fs`) -/
+def missingKind (fs : Fs) (file : Str) (upper : List (Str × Nat)) : IFail :=
+  if fs.isDir (normPath file) then .unreadable file upper else .notFound file upper
 
 mutual
 /-- `parse_file_inner`; `fuel` bounds the include depth (an include cycle recurses forever in the
@@ -128,7 +136,7 @@ def parseFile (cfg : PCfg) (fs : Fs) (fuel : Nat) (file : Str) (upper : List (St
   | 0 => .error .outOfFuel
   | fuel' + 1 =>
     match fs.read (normPath file) with   -- the OS resolves `.` / `..`
-    | none => .error (.notFound file upper)
+    | none => .error (missingKind fs file upper)
     | some script =>
       match parse cfg script with
       | .error f => .error (.parse f file upper)
